@@ -2,7 +2,8 @@
 from corr import corr_mesh
 import implsearch as IS
 
-MODULES = ["PyFV.Props.C10"]
+MODULES = ["PyFV.Props.C10", "PyFV.Props.GenEqVol"]
+TRANSLATORS = {"T-num": "python3 harness/translate/tnum.py lean/PyFV/Gen/Stencils.lean"}
 EXTRA_TRUST = ["Real.cos / Real.pi of Mathlib give the meaning of the θ-factor in the SphericalGrid3D counterexample; elsewhere sin/cos/π are parameters"]
 
 
